@@ -14,7 +14,7 @@ open Consts
 /-- `Buffer.WriteHead` -/
 def writeHead (ty tag : Nat) : Bytes :=
   if tag < extTagThreshold then [byte (tag * 16 + ty)]
-  else [byte (extTagThreshold * 16 + ty), byte tag]
+  else [byte (extTagMarker * 16 + ty), byte tag]
 
 /-- `Buffer.WriteInt8` (`data` is the int8 value as an integer) -/
 def writeInt8 (v : Int) (tag : Nat) : Bytes :=
@@ -144,7 +144,7 @@ def readHead : RM (Nat × Nat) := fun r =>
   | (.ok d, r1) =>
     let ty := d.val % 16
     let tag := d.val / 16
-    if tag = extTagThreshold then
+    if tag = extTagRead then
       match readByte r1 with
       | (.error e, r') => (.error e, r')
       | (.ok d2, r2) => (.ok (ty, d2.val), r2)
@@ -153,7 +153,7 @@ def readHead : RM (Nat × Nat) := fun r =>
 /-- `Reader.unreadHead` -/
 def unreadHead (curTag : Nat) : RM Unit := fun r =>
   let (_, r1) := unreadByte r
-  if curTag ≥ extTagThreshold then unreadByte r1 else (.ok (), r1)
+  if curTag ≥ extTagUnread then unreadByte r1 else (.ok (), r1)
 
 /-- `Reader.Skip(n)` for the Go `int` argument `n` -/
 def skip (n : Int) : RM Unit := fun r =>
